@@ -25,7 +25,11 @@ RULE = ("product of (old state point, route) x destination kind {absent, initial
         "after / after reading documents / after re-using the independent copies, exception class, "
         "(id, path, statepoint(), cached_statepoint, document()) of every handle, ids listed by fresh Projects. "
         "quick: stratified seeded sample of ~530 (destination x handle configuration enumerated per route kind; guaranteed strata for conflicting updates on falsy values and move-then-edit); thorough: the full (old, route) x destination product with 6 handle "
-        "configurations each. non-trivial: the operation changes the id or hits a conflict / KeyError; distinct by input")
+        "configurations each. non-trivial: the operation changes the id or hits a conflict / KeyError; distinct by input. "
+        "Round 4: the mapping handed to the setter / update_statepoint is mutated in place (nested and top level) right after "
+        "the call; after every re-key the new id is opened BY ID on the operating Project object and statepoint() / "
+        "cached_statepoint of that handle are read; route copy-move (move through the first shallow copy, then sp[k]=v / del "
+        "through the handle left behind); guaranteed quick stratum of colliding assignments through lazy handles")
 TRUSTED = [
     "float.__repr__ as oracle table (Section variable frepr)",
     "json.loads(json.dumps(v)) = v is built into the file node written by the model (bytes, Some v)",
